@@ -82,9 +82,7 @@ func (s *c19conc) Build(w *World) {
 	}
 	s.descr = fmt.Sprintf("requests=%d blocks=%d scopes=%v lock-yields=%v", s.nreq, s.ncid, s.scope, verifhook.Enabled)
 	// scheduling points inside the tracker (present only in the lock-yield build)
-	for _, f := range []string{"responsemanager/responseassembler/peerlinktracker.go", "responsemanager/responseassembler/responseassembler.go", "linktracker/linktracker.go"} {
-		w.Yields["lock:"+f] = true
-	}
+	w.EnableLockYields("responsemanager/responseassembler/peerlinktracker.go", "responsemanager/responseassembler/responseassembler.go", "linktracker/linktracker.go")
 	p := peer.ID("lt-peer")
 	for r := 0; r < s.nreq; r++ {
 		r := r
